@@ -1,6 +1,6 @@
 use super::{class_inheritance, error::TYPE_ERROR_NAME, error_inheritance};
 use crate::{
-  native, native_with_error,
+  create_error, native, native_with_error,
   support::{export_and_insert, load_class_from_module},
   StdResult,
 };
@@ -173,12 +173,9 @@ fn format_map_entry(
     Call::Ok(VALUE_NIL)
   } else {
     // if error throw away temporary strings
-    hooks.call(
-      error,
-      &[val!(hooks.manage_str(format!(
+    create_error!(error, hooks, format!(
         "Expected type str from {item}.str()"
-      )))],
-    )
+      ))
   })
 }
 
